@@ -37,9 +37,10 @@ BumpDen == 1
 InitClkEpochs == {0}
 MaxLen == 1000000
 RawMags(b) == {b}
-\* the specification as written for the code under test (faithful switches)
-StepUsesDoubleInv == TRUE
-DurationWraps == TRUE
+\* the code under test has both repairs (Step(measured), d clamped to the
+\* largest whole number of seconds of a time.Duration)
+StepUsesDoubleInv == FALSE
+DurationWraps == FALSE
 
 VARIABLES mode, epoch, t0, t, now, clkEpoch, estart, act, lastIn, hist,   \* Pll.tla, advanced by Pll!Do
           l,                                                              \* events consumed
